@@ -197,10 +197,11 @@ func inheritKey(key pdf.Name, parentDict pdf.Dict, childNodes []*nodeInfo) {
 	buf := &bytes.Buffer{}
 	for i, node := range childNodes {
 		val, ok := node.dict[key]
-		if !ok {
+		if !ok || val == nil {
 			// If a child lacks the field, we can't use inheritance,
 			// because there is no way to override an inherited
-			// value with the "unset" value.
+			// value with the "unset" value.  An explicit null entry is
+			// the same as a missing entry.
 			return
 		}
 		buf.Reset()
@@ -261,8 +262,10 @@ func inheritRotate(parentDict pdf.Dict, childNodes []*nodeInfo) {
 	numDefault := 0
 	for i, node := range childNodes {
 		val, ok := node.dict[key]
-		if !ok {
-			// missing /Rotate means the page needs the PDF default (0 degrees)
+		if !ok || val == nil {
+			// missing (or null) /Rotate means the page needs the PDF
+			// default (0 degrees)
+			delete(node.dict, key)
 			repr[i] = defaultString
 			numDefault++
 			continue
